@@ -77,8 +77,18 @@ def P(name, row, T, ctype, attrs="", dir="in", **kw):
 
 
 ENUM_NAME = "XColor"
-ENUM_MEMBERS = [("XC_RED", 2), ("XC_GREEN", 5), ("XC_BLUE", 9)]
-ENUM_DECL = "enum %s { %s }" % (ENUM_NAME, ", ".join("%s = %d" % m for m in ENUM_MEMBERS))
+# an expression-valued member, then an integer-valued one, then implicit ones, then an expression again
+# (cxx enumerator = value expression; the callers use the generated names, as a user would)
+ENUM_TEXTS = [("XC_RED", "2"), ("XC_DEFLT", "XC_RED"), ("XC_GREEN", "5"), ("XC_BLUE", None), ("XC_CYAN", None),
+              ("XC_LAST", "XC_CYAN + 2")]
+ENUM_MEMBERS = [("XC_RED", 2), ("XC_DEFLT", 2), ("XC_GREEN", 5), ("XC_BLUE", 6), ("XC_CYAN", 7), ("XC_LAST", 9)]
+ENUM_DECL = "enum %s { %s }" % (ENUM_NAME, ", ".join(n if t is None else "%s = %s" % (n, t) for n, t in ENUM_TEXTS))
+
+
+def enum_member(value, salt=0):
+    """Name of a member with this value (the same value may have two names)."""
+    names = [n for n, v in ENUM_MEMBERS if v == value]
+    return names[salt % len(names)]
 
 DIM_FORMS = ["{m}", "{m}", "{m}+1", "{m},{k}", "{m},{k}-1", "{m}+1,{k}"]
 
